@@ -370,7 +370,9 @@ def c19_generate(seed, tier):
     fl = core.stream(seed, "faults")
     n_env = rng.choice([2, 2, 3])
     family = cfgr.choice(["same_object", "same_spec", "same_params",
-                          "same_params", "mixed", "mixed_layout"])
+                          "same_params", "mixed", "mixed_layout",
+                          "bench_seeded_unseeded"])
+    bench_name = cfgr.choice(configs.GEN_BENCH[:5])
     specs = []
     share = []
     base = configs.draw_spec(cfgr, {"benchmark": 0.25, "generated": 0.35,
@@ -389,6 +391,16 @@ def c19_generate(seed, tier):
             p = dict(gp)
             p["seed"] = cfgr.randint(0, 2 ** 31 - 1)
             specs.append({"kind": "generated", "params": p})
+            share.append(None)
+        elif family == "bench_seeded_unseeded":
+            # the same generated benchmark created with and without a seed
+            if cfgr.random() < 0.5:
+                specs.append({"kind": "genbench", "name": bench_name,
+                              "seed": cfgr.randint(0, 10 ** 6)})
+            else:
+                specs.append({"kind": "genbench", "name": bench_name,
+                              "seed": None,
+                              "np_seed": cfgr.randint(0, 2 ** 31 - 1)})
             share.append(None)
         elif family == "mixed":
             # same layout signature is likely only for equal specs
